@@ -17,6 +17,8 @@ CHAIN_IDS = ['A', 'B', 'A', None, 'X', 'C', None]
 SEGS = ['', '', 'SEG1', 'PROA', 'W']
 ELEMS = ['C', 'N', 'O', 'H', 'S', 'P', 'D', 'Cl', 'Na', 'Fe', 'VS']       # incl. deuterium (shares Z with H), two-letter symbols, a virtual site
 BOND_TYPES = [None, 'Single', 'Double', 'Triple', 'Aromatic', 'Amide']
+FF_NAMES = {'O': ['OW', 'OT1', 'OT2', 'OH2', 'OM'], 'H': ['HW1', 'HW2', 'HT1', 'HT2', 'HT3', 'HA1', 'HN', '1HB', 'H1'], 'C': ['CA', 'C', 'CB', 'CD1'],
+            'N': ['N', 'NT', 'NE2'], 'VS': ['M', 'MW', 'EPW', 'LP1', 'COM', 'OM', 'DC2', 'V1'], 'S': ['SG', 'SD'], 'D': ['D1', 'DOH2']}
 
 
 # ------------------------------------------------------------------ generation
@@ -43,6 +45,11 @@ def gen_model(rng, mode):
                 e = rng.choice(ELEMS if mode == 'hostile' else ELEMS[:-1])
                 # generic force-field / mol2 style: several atoms of a residue may carry the same name
                 nm = e[0] if (mode == 'hostile' and dupnames) else '%s%d' % (e[0], a + 1)
+                if mode == 'hostile' and not dupnames and rng.chance(0.3):
+                    # force-field / old-style spellings and names that read like element symbols (unique within the residue)
+                    alt = rng.choice(FF_NAMES.get(e, [nm]))
+                    if all(x['name'] != alt for x in atoms if x['res'] == len(residues) - 1):
+                        nm = alt
                 atoms.append({'name': nm, 'elem': e, 'serial': serial, 'res': len(residues) - 1})
                 serial += rng.choice([1, 1, 1, 2, 7]) if mode == 'hostile' else 1
     n = len(atoms)
@@ -80,6 +87,7 @@ def generate(check, rng, tier, run_index):
         o = {'op': k, 'i': rng.below(1 << 10)}
         if k == 'pdb':
             o['ter'] = rng.chance(0.7)
+            o['std_names'] = rng.chance(0.6)        # False: load_pdb(standard_names=False), names come back as they are in the file
         if k in ('subset', 'traj_atom_slice'):
             o['bits'] = rng.below(1 << 48) | (1 << rng.below(8))
         elif k in ('join', 'traj_stack'):
@@ -257,8 +265,10 @@ def _pdb_structural_reasons(model):
         reasons.add('resSeq_range')
     if any(len(r['seg']) > 4 for r in model['residues']):
         reasons.add('segment')
-    if any(a['elem'] == 'VS' or len(a['name']) > 4 for a in model['atoms']):
-        reasons.add('atom')
+    if any(a['elem'] == 'VS' for a in model['atoms']):
+        reasons.add('vs')
+    if any(len(a['name']) > 4 for a in model['atoms']):
+        reasons.add('long_atom_name')
     rs = model['residues']
     for a, b in zip(rs[:-1], rs[1:]):
         if a['chain'] == b['chain'] and a['resSeq'] == b['resSeq']:
@@ -550,8 +560,26 @@ def execute(check, case, workdir):
                     res.probe('pdb_saved_without_ter')
                 else:
                     t.save(p)
-                top2 = md.load(p).topology
+                raw_names = kind == 'pdb' and not op.get('std_names', True)
+                top2 = (md.load(p, standard_names=False) if raw_names else md.load(p)).topology
+                if raw_names:
+                    res.probe('pdb_loaded_with_standard_names_off')
                 drop = ('bond_type', 'bond_order')      # neither the PDB format nor the HDF5 topology JSON (pairs only) can hold them
+                if kind == 'pdb' and top2.n_atoms == n and not (_pdb_structural_reasons(m.model) - set(['standard_name', 'vs'])):
+                    # per-atom columns the file stores verbatim: the element always; the atom name unless the reader was asked
+                    # to rewrite the names of standard residues (standard_names=True with such a residue present)
+                    res.probe('pdb_atom_columns_checked')
+                    ge = [a.element.symbol for a in top2.atoms]
+                    we = [a['elem'] for a in m.model['atoms']]
+                    if ge != we:
+                        k0 = [i for i in range(n) if ge[i] != we[i]][0]
+                        viol('pdb', 'attr_lost:element_column', {'atom': k0, 'name': m.model['atoms'][k0]['name'], 'stored': we[k0], 'loaded': ge[k0]}, stepno, 'expect=kept')
+                    elif raw_names or 'standard_name' not in _pdb_structural_reasons(m.model):
+                        gn = [a.name for a in top2.atoms]
+                        wn = [a['name'] for a in m.model['atoms']]
+                        if gn != wn:
+                            k0 = [i for i in range(n) if gn[i] != wn[i]][0]
+                            viol('pdb', 'attr_lost:atom_name_column', {'atom': k0, 'stored': wn[k0], 'loaded': gn[k0], 'standard_names': not raw_names}, stepno, 'expect=kept')
                 want = pdb_conect_expectation(m.model) if kind == 'pdb' else None
                 if want is not None and top2.n_atoms == len(m.model['atoms']):
                     # the part of the bond graph the file itself must carry (CONECT), judged on its own: the reader's templates
